@@ -182,7 +182,9 @@ def draw_crash(t, points):
     """-> (spec string or None, description)"""
     if not points or t.draw(12) == 0:
         return None, "no crash"
-    pt = points[t.draw(len(points))]
+    # biased towards the later steps of the operation (more state is in flight there); the first draw
+    # alone decides in enumeration mode, where the second is zero
+    pt = points[max(t.draw(len(points)), t.draw(len(points)))]
     if t.draw(2) == 0:
         return pt + ":kill", "kill at " + pt
     size = tear_sizes(pt)
@@ -232,7 +234,7 @@ def run_once(r):
     completed = False
     trace = os.path.join(w.workdir, "trace")
     for attempt in range(2 if second else 1):
-        spec, desc = draw_crash(t.block(6), points)
+        spec, desc = draw_crash(t.block(7), points)
         if os.path.exists(trace):
             os.remove(trace)
         extra = {"VERIF_TRACE": trace}
@@ -327,8 +329,32 @@ def run_once(r):
             r.violate("C27", "repository_unusable", cause["attrs"], "the repository was added but its plugin cannot be installed/run: %s %s" % (err.strip()[-200:], err2.strip()[-200:]))
 
 
+ENUM_POINTS, ENUM_MODES = 18, 5
+ENUM_TOTAL = len(INITIALS) * len(CONFIGS) * len(OPS) * ENUM_POINTS * ENUM_MODES
+
+
+def enumerate_tape(run, tier):
+    """Thorough tier: the first ENUM_TOTAL runs walk (initial state x config x operation) x crash point x
+    {kill, torn write at byte 0, 1, middle, last} systematically; the tape is prefilled accordingly
+    (indices beyond a template's crash points wrap around). Later runs are seeded-random."""
+    if tier != "thorough" or run >= ENUM_TOTAL:
+        return None
+    e = run
+    ini, e = e % len(INITIALS), e // len(INITIALS)
+    cfg, e = e % len(CONFIGS), e // len(CONFIGS)
+    op, e = e % len(OPS), e // len(OPS)
+    pt, e = e % ENUM_POINTS, e // ENUM_POINTS
+    mode = e % ENUM_MODES
+    hdr = [ini, cfg, op, 0, 0, 0, 0, 0]
+    if mode == 0:
+        crash = [1, pt, 0, 0, 0, 0, 0]           # kill
+    else:
+        crash = [1, pt, 0, 1, [0, 2, 6, 4][mode - 1], 0, 0]  # tear at byte 0 / 1 / middle / last
+    return hdr + crash
+
+
 if __name__ == "__main__":
     try:
-        simlib.worker_main("c27", run_once)
+        simlib.worker_main("c27", run_once, tape_for_run=enumerate_tape)
     finally:
         shutil.rmtree(SHORT_TMP, ignore_errors=True)
